@@ -23,7 +23,7 @@ CHECKS = {
  "C09": ("invariants over the history (sign, ordering, hull, histogram identity) after every input; bounded-exhaustive + proptest cancellation streams + 140 000-input sign stage + libFuzzer campaign (thorough) + identity-event stage (clone / clone_from into a used target / serde round trip applied mid-stream under the same oracle) + reset-segment stage + windows to 4 097 slots, multipliers to f64::MAX",
          "SD/MAD/TR/ATR >= 0, Minimum <= Maximum, band ordering, Chandelier exits vs window extremes, histogram = line - signal, SMA/WMA/EMA inside their hull; exhaustive over {-1e12,-1,0,1e-6,1,1e12} for periods 1..=5; random streams engineered for cancellation, multipliers >= 0 incl. 0 and 1e6.", "4/C09"),
  "C10": ("differential (bar path vs documented-field scalar path) + metamorphic field perturbation + DataItem twin, proptest + joint resets and identity events",
-         "All 22 indicators on bars with five independently drawn fields: next(&bar) vs next(documented field); one-price bars vs scalar path; undocumented fields replaced by unrelated values (outputs must stay bit-identical); DataItem vs another implementor. The harness also instantiates every indicator on minimal-trait bar types (compile-time).", "4/C10"),
+         "All 22 indicators on bars with five independently drawn fields: next(&bar) vs next(documented field); one-price bars vs scalar path; undocumented fields replaced by unrelated values (outputs must stay bit-identical); DataItem vs another implementor.", "4/C10"),
  "C11": ("reference predicate on constructor verdicts/accessors/Display/Default; exhaustive enumeration of period arguments + proptest later histories + long lives with a reset before every power-of-two call count",
          "Every single-period constructor for 0..=4096, all tuples over 0..=24 for MACD/PPO/SlowStochastic, boundary periods up to usize::MAX for allocation-free arguments, special multipliers; built with overflow checks. Default vs new(documented defaults) compared on generated streams.", "4/C11"),
  "C12": ("robustness testing: catch_unwind around every call, deterministic sweeps of every ring state (periods 1..=64 and 14 structural larger ones, 8 special-value schedules) + >2^16 ring turns + proptest op sequences + libFuzzer campaign (thorough); overflow checks and debug assertions on + round-trip-and-continue operation, tie-heavy inputs, windows of 2^16 slots and more",
